@@ -74,7 +74,7 @@ def run(tier, seed):
     rnd = random.Random(seed * 79 + 22)
     import gen_prog
     import refrun
-    progs, srcs = refrun.gen_programs(seed + 221, 150 if tier == "quick" else 1500, 5, err_rate=0.0, features={"ext": True})
+    progs, srcs = refrun.gen_programs(seed + 221, 150 if tier == "quick" else 1500, 5, err_rate=0.0, features={"ext": True, "ext2": "half"})
     for p in progs:
         if p["id"] % 4 == 0:
             add_tail_shapes(p)
